@@ -3,6 +3,9 @@ package props
 
 import (
 	"encoding/json"
+
+	"github.com/Azbesciak/RealDecisionMaker/lib/model"
+	"rdmverif/svc"
 	"fmt"
 	"math"
 	"sort"
@@ -148,3 +151,5 @@ func stat(name string) {
 		cur.Counters[name]++
 	}
 }
+
+func svcDecide(dm *model.DecisionMaker) *model.DecisionMakerChoice { return svc.Decide(dm) }
